@@ -90,6 +90,7 @@ func runWorldCase(t *rapid.T, s *worldSpec) {
 	w.rememberInitialCfg()
 	w.trackIndex(Op{Kind: "reopen"})
 	steps := rapid.IntRange(p.MinSteps, p.MaxSteps).Draw(t, "steps")
+	cnt0 := refCnt
 	handle := func(v *Violation) bool {
 		if v == nil {
 			return false
@@ -119,6 +120,9 @@ func runWorldCase(t *rapid.T, s *worldSpec) {
 	if s.End != nil && handle(s.End(t, w)) {
 		return
 	}
+	w.Cnt["rotations"] = refCnt.Rot - cnt0.Rot
+	w.Cnt["double_rotations"] = refCnt.DoubleRot - cnt0.DoubleRot
+	w.Cnt["removals"] = refCnt.Removals - cnt0.Removals
 	for id, n := range w.Excl {
 		Count(s.Prop, "excluded_by_"+id, n)
 	}
